@@ -853,7 +853,9 @@ def e2e_files(spec):
     """spec: {"R":…, "layout": "pre"|"jit_seq"|"jit_inter"|"tight", "groups": n, "trunc": bool, "tight_off": us}"""
     from gen import scenario as sc
     R, layout, ng = spec["R"], spec["layout"], spec["groups"]
-    ranks = [sc.Rank(r, 512.0, 1_000_000_000.0, 512 * 1000 * (r + 1)) for r in range(R)]
+    # hskew: the ranks' host clocks are some tens of microseconds apart (what the clock alignment is there for)
+    hs = spec.get("hskew") or [0] * R
+    ranks = [sc.Rank(r, 512.0, 1_000_000_000.0 + hs[r % len(hs)], 512 * 1000 * (r + 1)) for r in range(R)]
     for r in range(R):
         sc.kernel(ranks[r], "mm_0", 100.0)
     t = 300.0
@@ -896,8 +898,9 @@ def run_e2e(spec):
         # -M: an incomplete trailing group makes the collective-based rank alignment refuse the input
         # the statement holds for every other switch: vary switches that register further stages around the flow
         # stages (derived from the scenario so that a case replays identically); -F keeps every event type here
-        extra = [[], [], ["-F", "XsfCM"], ["-t"], ["--keep_prep"], ["--drop_globals"], ["-F", "XsfCM", "-t"]][
-            len(json.dumps(spec, sort_keys=True)) % 7]
+        extras = [[], [], ["-F", "XsfCM"], ["-t"], ["--keep_prep"], ["--drop_globals"], ["-F", "XsfCM", "-t"], ["-S"], ["-k"],
+                  ["-S", "--drop_globals"]]
+        extra = extras[spec["xi"] % 10] if "xi" in spec else extras[len(json.dumps(spec, sort_keys=True)) % 7]
         res = stage.e2e(["--flow", "--freq", "512"] + (["-M"] if spec.get("trunc") else []) + extra, e2e_files(spec))
         gc.collect()
     return res
@@ -1060,7 +1063,12 @@ def run(ctx: Ctx):
         specs.append({"R": R, "layout": "tight", "groups": 2, "tight_off": off, "trunc": False})
     if ctx.search_mode:
         specs = specs[:6] + [sp for sp in specs if sp["layout"] == "tight"][:2]
-    for spec in specs:
+    # the same scenarios once more with skewed host clocks, under the alignment variants (-S: v2 alignment)
+    SKEW = [0, 40, -25, 13, 7, -3, 21, 5]
+    specs = specs + [dict(sp, hskew=SKEW, xi=[7, 0, 9, 5][k % 4]) for k, sp in enumerate(specs) if not sp["trunc"]]
+    for k, spec in enumerate(specs):
+        if "xi" not in spec:
+            spec["xi"] = k          # round robin over the switch sets (kept in the case for replay)
         case = {"kind": "e2e", "spec": spec}
         res, _, _, vs = oracle_on_case(ctx, case)
         nfl = sum(1 for e in (res.get("events") or []) if e["ph"] == "s")
